@@ -409,11 +409,15 @@ FAULT_CONFIGS = [
 ]
 
 
-def fault_unit(name):
+def fault_unit(name, std='17'):
     d = dict(NONSTD)
     d['VF_V'] = dict(FAULT_CONFIGS)[name]
-    d['VF_NAME'] = '"%s"' % name
-    return D.Unit(name, 'targets/fault_main.cpp', d, std='17', kind='asan', engine=True)
+    uname = name if std == '17' else '%s_cxx%s' % (name, std)
+    d['VF_NAME'] = '"%s"' % uname
+    return D.Unit(uname, 'targets/fault_main.cpp', d, std=std, kind='asan', engine=True)
+
+
+FAULT_MULTISTD = [('f_vec_ntr_std', '11'), ('f_sv4_ntr_std', '14'), ('f_fcv12_ntr', '14'), ('f_sv4_tr_re', '20')]
 
 
 FAULT_RULE = ('scenario = (operation, initial size, position, count, range source, spare/tight capacity, inline/heap); a dry run counts the fault points '
@@ -425,6 +429,7 @@ FAULT_RULE = ('scenario = (operation, initial size, position, count, range sourc
 def check_C09(tier, seed, t0):
     names = [n for n, _ in FAULT_CONFIGS]
     jobs = [{'unit': fault_unit(n), 'cases': 1, 'maxlen': 1, 'extra_args': ['--exhaustive']} for n in names]
+    jobs += [{'unit': fault_unit(n, sd), 'cases': 1, 'maxlen': 1, 'extra_args': ['--exhaustive']} for n, sd in FAULT_MULTISTD]  # the pre-C++17 memory algorithms
     part1 = interp_part('C09', 'exhaustive_grid', jobs, seed, FAULT_RULE + '; complete grid: 25 ops x sizes {0,1,2,3,5} x positions {begin,middle,end} x counts 0..6 '
                         'x {T*,list,single-pass} x {spare,tight} x {inline,heap}', True)
     part1.coverage['exhaustive'] = True
@@ -633,7 +638,7 @@ def all_units():
     for s in ('11', '14', '20'):
         us += [vec_unit(n, s) for n in C.VEC_MULTISTD]
     us += [fs_unit(n) for n, _ in C.FS_CONFIGS]
-    us += [fault_unit(n) for n, _ in FAULT_CONFIGS]
+    us += [fault_unit(n) for n, _ in FAULT_CONFIGS] + [fault_unit(n, sd) for n, sd in FAULT_MULTISTD]
     us += c15_units() + [race_unit()] + c13_units() + bfs_units() + [enum_unit('exh_c10', 'targets/exh_c10.cpp'), enum_unit('exh_c08', 'targets/exh_c08.cpp'), enum_unit('static_c14', 'targets/static_c14.cpp'), enum_unit('alloc_c06', 'targets/alloc_c06.cpp')]
     from . import c16
     us += [c16.unit(cfg, b) for cfg in c16.VEC + c16.FS + c16.SS for b in c16.QUICK_BUILDS if not (cfg in c16.SS and b[0] in ('11', '14'))]
